@@ -53,6 +53,23 @@ package jws
 //@   trusted
 //@   modifies all(j)
 //
+// secp256k1 keys are decoded by the library itself: both coordinates must have exactly the curve's byte size (the
+// curve arithmetic underneath silently truncates longer values, so a longer coordinate would alias the genuine key)
+//@ spec csz(c elliptic.Curve) int
+//@ func curveSize
+//@   trusted
+//@   ensures result == csz(crv)
+//@ func dSize
+//@   trusted
+//@ spec secpCurve() *btcec.KoblitzCurve
+//@ extern github.com/btcsuite/btcd/btcec.S256
+//@   ensures result == secpCurve() && result != nil
+//@ func unmarshalSecp256k1
+//@   requires jwk != nil && ErrInvalidKey != nil
+//@   results k, err
+//@   ensures err == nil ==> jwk.X != nil && jwk.Y != nil && len(jwk.X.data) == csz(boxed(secpCurve())) && len(jwk.Y.data) == csz(boxed(secpCurve()))
+//@   ensures err == nil ==> k != nil && fresh(k)
+//
 // ECDSA: unsupported curve, a key that is not an EC public key, or a signature that is not exactly 2*keySize bytes
 // is rejected; r and s are the two halves
 //@ func verifyECSignature
